@@ -101,6 +101,8 @@ def reference(records):
             return max(0, min(r["region"][1], r["end"]) - max(r["region"][0], r["start"]) + 1)
         m = max(ov(records[i]) for i in non)
         cand = [i for i in non if ov(records[i]) == m]
+        if any(not records[i]["secondary"] for i in cand):
+            cand = [i for i in cand if not records[i]["secondary"]]      # the primary alignment is preferred to secondary ones
         ms = min(records[i]["region"][0] for i in cand)
         cand = [i for i in cand if records[i]["region"][0] == ms]
         keep = cand[:1]
